@@ -739,7 +739,13 @@ func c05Extra(c *Ctx) {
 		}
 		r.Check("C05.2", "annotations-delegation", ok, c.U.Pos(fn.Pos()), fmt.Sprintf("ValidateSpecAnnotations returns the verdict of k8s.ValidateAnnotations on the map it was given (%d call(s))", len(calls)))
 	}
-	// nil elements (C05.4): the failure exits inside ContainerEdits.Validate
+	nilElementsRejected(c, "C05.4", "nil-element:")
+}
+
+// nilElementsRejected: the failure exits for null list entries inside
+// ContainerEdits.Validate (C05.4; also what C08.K2 relies on for the dereferences in Apply).
+func nilElementsRejected(c *Ctx, rule, keyPrefix string) {
+	r := c.R
 	if fn := c.U.Func("cdi", "(*ContainerEdits).Validate"); fn != nil {
 		_, fail := c.returnsByOutcome(fn)
 		for _, list := range []string{"DeviceNodes", "Hooks", "Mounts"} {
@@ -762,7 +768,7 @@ func c05Extra(c *Ctx) {
 					guarded = true
 				}
 			}
-			r.Check("C05.4", "nil-element:"+list, found && guarded, c.U.Pos(fn.Pos()), "a null entry in "+list+" is an error, and the entry's validator only sees non-nil entries")
+			r.Check(rule, keyPrefix+list, found && guarded, c.U.Pos(fn.Pos()), "a null entry in "+list+" is an error, and the entry's validator only sees non-nil entries (Apply dereferences every entry of a Spec that loaded)")
 		}
 	}
 }
@@ -770,6 +776,7 @@ func c05Extra(c *Ctx) {
 // c05TypeSwitch: C05.3.
 func c05TypeSwitch(c *Ctx) {
 	r := c.R
+	untypedAnnotationsCopied(c, "C05.3", "untyped-copy")
 	fn := c.fn("C05.3", "validation", "ValidateSpecAnnotations")
 	if fn == nil {
 		return
@@ -884,4 +891,46 @@ func c05Tables(c *Ctx) {
 		}
 	}
 	r.Check("C05.6", "device-types", ok, c.U.Pos(fn.Pos()), fmt.Sprintf("device types accepted: %v; expected %s", found, want))
+}
+
+// untypedAnnotationsCopied: ValidateSpecAnnotations turns a map[string]interface{} into the
+// map[string]string that is validated by storing, for every entry, the entry's key as key
+// and the entry's string value as value.
+func untypedAnnotationsCopied(c *Ctx, rule, key string) {
+	fn := c.U.Func("validation", "ValidateSpecAnnotations")
+	if fn == nil {
+		return
+	}
+	n, ok := 0, true
+	ir.Instrs(fn, func(in ssa.Instruction) {
+		mu, isMU := in.(*ssa.MapUpdate)
+		if !isMU {
+			return
+		}
+		n++
+		k, isK := mu.Key.(*ssa.Extract)
+		if !isK || k.Index != 1 {
+			ok = false
+			return
+		}
+		if _, isNext := k.Tuple.(*ssa.Next); !isNext {
+			ok = false
+			return
+		}
+		// value: the string the entry's value was asserted to be
+		v := mu.Value
+		if ex, isEx := v.(*ssa.Extract); isEx && ex.Index == 0 {
+			v = ex.Tuple
+		}
+		ta, isTA := v.(*ssa.TypeAssert)
+		if !isTA {
+			ok = false
+			return
+		}
+		src, isSrc := ta.X.(*ssa.Extract)
+		if !isSrc || src.Index != 2 || src.Tuple != k.Tuple {
+			ok = false
+		}
+	})
+	c.R.Check(rule, key, ok && n == 1, c.U.Pos(fn.Pos()), fmt.Sprintf("the untyped annotations map is copied entry by entry, key to key and (string) value to value, before it is validated (%d map store(s))", n))
 }
